@@ -81,11 +81,19 @@ def main():
             mod.replay(ctx, data)
         else:
             mod.run(ctx)
-    except Exception:
+    except Exception as e:
+        # A translator that cannot read the current source, or a harness that no longer compiles against it, means the
+        # tie between the model and the code is not established for this tree: protocol P (DESIGN §3) — the property
+        # is no longer shown to hold. The individual checks do their own search when a translator breaks; reaching
+        # this handler means none was possible, so the violation is reported without a failing input and the replay
+        # file names what no longer checks.
+        tb = traceback.format_exc()
         traceback.print_exc()
-        ctx.cov["infrastructure_error"] = traceback.format_exc()[-2000:]
-        ctx.write_evidence()
-        return 2
+        ctx.cov["machinery_error"] = tb[-2000:]
+        ctx.violation("the tie to the current source could not be established (translator / harness / model build "
+                      f"failed): {type(e).__name__}: {str(e)[:400]}",
+                      {"kind": "tie-not-established", "exception": tb[-4000:], "tier": a.tier, "seed": seed}, False)
+        return ctx.finish()
     return ctx.finish()
 
 
